@@ -31,7 +31,8 @@ func init() {
 func (reconfStream) Name() string          { return "reconf" }
 func (reconfStream) TrivialTags() []string { return nil }
 
-const reconfRoot = "/tmp/cdi-verif-reconf"
+// per-process scratch root: concurrent runs of the harness must not share a tree
+var reconfRoot = scratchRoot("/tmp/cdi-verif-reconf")
 
 var reconfDirs = []string{"P0", "P1", "P2", "P3missing"}
 
